@@ -16,73 +16,87 @@ U6 = "u6_text"
 
 PROPS = {
     "C01": {
+        "witness": ("w_server", ['w_c01_chunkings', 'w_c12_flush']),
         "title": "Inbound packets are reassembled exactly under every transport chunking",
         "kani": [("k1_frames", None)],
         "native": ["n1_packet"],
         "verus": [(U1, ["U1.next"]), (U5, ["C02.run.log", "U5.run"])],
     },
     "C02": {
+        "witness": ("w_server", ['w_c02_dispatch']),
         "title": "Each client command reaches exactly the right shim callback, verbatim",
         "kani": [("k2_commands", ["k2_parse_text", "k2_parse_stmt", "k2_parse_other"])],
         "verus": [(U5, ["U5."])],
     },
     "C03": {
+        "witness": ("w_server", ['w_c03_responses']),
         "title": "Exactly one complete, protocol-conformant response per command",
         "kani": [],
         "verus": [(U2, ["U2."]), (U3, ["U3."]), (U5, ["U5."])],
     },
     "C04": {
+        "witness": ("w_server", ['w_c04_big']),
         "title": "Outbound bytes are well-framed, including messages of 16 MiB and more",
         "kani": [("k6_deps", ["k6_byteorder_le"])],
         "verus": [(U1, ["U1.write", "U1.end", "U1.flush", "U1.new"])],
     },
     "C05": {
+        "witness": ("w_server", ['w_c05_seq']),
         "title": "Response sequence ids continue the request's and wrap modulo 256",
         "kani": [("k1_frames", None)],
         "native": ["n1_packet"],
         "verus": [(U1, ["C04.end", "C04.write", "U1.end"]), (U5, [])],
     },
     "C06": {
+        "witness": ("w_server", ['w_c03_responses']),
         "title": "Text-protocol result values arrive unchanged",
         "kani": [("k6_deps", ["k6_write_lenenc_int", "k6_write_lenenc_str"]), ("k4_values", ["k4_bytes_text", "k4_option_text", "k4_forwarders", "k4_forwarders_str"])],
         "verus": [(U3, ["U3.write_col", "U3.end_row", "U3.write_row", "C07.row"]), (U6, [])],
     },
     "C07": {
+        "witness": ("w_server", ['w_c07_binary']),
         "title": "Binary-protocol rows arrive unchanged, with an exact NULL bitmap",
         "kani": [("k4_ints", None), ("k4_values", None), ("k6_deps", ["k6_write_lenenc_int", "k6_write_lenenc_str", "k6_byteorder_le"])],
         "verus": [(U3, ["U3.write_col", "U3.end_row", "C03.shape"])],
     },
     "C08": {
+        "witness": ("w_server", ['w_c08_params']),
         "title": "Prepared-statement parameters are decoded to exactly what the client bound",
         "kani": [("k2_commands", ["k2_parse_stmt"]), ("k3_decode", None)],
         "verus": [(U4, ["U4."])],
     },
     "C09": {
+        "witness": ("w_server", ['w_c09_meta']),
         "title": "Column metadata reaches the client exactly as the shim declared it",
         "kani": [("k6_deps", ["k6_write_lenenc_int", "k6_write_lenenc_str", "k6_byteorder_le"])],
         "verus": [(U2, ["U2."]), (U3, ["U3.pre", "U3.start", "U3.rw.new", "U3.new"])],
     },
     "C10": {
+        "witness": ("w_server", ['w_c10_registry', 'w_c02_dispatch']),
         "title": "Statement ids are executable exactly between PREPARE reply and CLOSE",
         "kani": [],
         "verus": [(U3, ["U3.reply"]), (U5, ["U5.", "C17.clear", "C17.append", "C02.run.log"])],
     },
     "C11": {
+        "witness": ("w_server", ['w_c11_handshake']),
         "title": "Greeting is well-formed and no command is served before the shim authenticates",
         "kani": [("k2_commands", ["k2_handshake_fixed", "k2_handshake_user"]), ("k5_errors", ["k5_emitted"])],
         "verus": [(U5, ["U5.", "C12.init", "C05.init", "C12.run_on"])],
     },
     "C12": {
+        "witness": ("w_server", ['w_c12_flush']),
         "title": "The server never waits for input while it owes a flushed reply",
         "kani": [],
         "verus": [(U1, ["U1.next", "U1.flush"]), (U5, ["U5."])],
     },
     "C13": {
+        "witness": ("w_server", ['w_c13_errors', 'w_c03_responses']),
         "title": "Errors reach the client with the exact code, SQLSTATE and message",
         "kani": [("k5_errors", None)],
         "verus": [(U2, ["U2."]), (U3, ["U3.pre", "U3.finish"])],
     },
     "C14": {
+        "witness": ("w_server", ['w_c14_counts', 'w_c03_responses']),
         "title": "Completion counts arrive exactly, including for zero-column resultsets",
         "kani": [("k6_deps", ["k6_write_lenenc_int", "k6_read_lenenc_int", "k6_byteorder_le"])],
         "verus": [(U2, ["U2."]), (U3, ["U3.pre", "U3.finish", "U3.end_row", "C03.finish", "C03.finalize", "C07.row.packet"])],
@@ -93,11 +107,13 @@ PROPS = {
         "verus": [],
     },
     "C16": {
+        "witness": ("w_server", ['w_c16_c17_stmt']),
         "title": "Bound parameter types persist per statement across executions",
         "kani": [],
         "verus": [(U4, ["U4.", "C08.next"]), (U5, ["C10.", "C17.clear", "C17.append", "C02.run.log", "U5.run"])],
     },
     "C17": {
+        "witness": ("w_server", ['w_c16_c17_stmt']),
         "title": "Long data is concatenated in order, delivered once, and never leaks",
         "kani": [("k2_commands", ["k2_parse_stmt"])],
         "verus": [(U4, ["U4.", "C08.next"]), (U5, ["C10.", "C02.run.log", "U5.run"])],
@@ -108,11 +124,13 @@ PROPS = {
         "verus": [(U1, ["U1.tls"]), (U5, ["C12.init", "C11.auth"])],
     },
     "C19": {
+        "witness": ("w_server", ['w_c19_faults']),
         "title": "Connection end and transport faults are reported, never masked",
         "kani": [],
         "verus": [(U1, ["C01.next.err", "C01.next.none"]), (U2, ["U2."]), (U3, ["U3."]), (U5, ["U5.", "C12.run", "C20.run", "C20.init"])],
     },
     "C20": {
+        "witness": ("w_server", ['w_c19_faults', 'w_c01_chunkings']),
         "title": "No client byte sequence can crash or wedge a connection",
         "kani": [("k1_frames", None), ("k2_commands", None), ("k3_decode", ["k3_parse_fixed", "k3_parse_bytes", "k3_parse_temporal"])],
         "native": ["n1_packet"],
